@@ -205,6 +205,51 @@ func c34Cores() []c34Core {
 				func() { r.f.closeTunnel(hiB) },
 			}, net.close
 		}},
+		{"pki-reload-vs-handshake-vs-cert-check", 3, func(t testing.TB, seed int64) ([]func(), func()) {
+			net, a, b := c34Pair(t, seed, 1, 2)
+			if !net.establish(a, b, "s1") || !net.establish(b, a, "s2") {
+				t.Fatalf("establish")
+			}
+			net.flushFIFO(50)
+			// a fresh first handshake message from a (re-handshake), captured
+			s1 := c34Capture(net, func() { a.hm.StartHandshake(b.vpnIP, nil); a.settle() })
+			pk := vGetPKI()
+			leaf := pk.leafFor(b.spec.Name, b.spec.Networks, b.spec.Unsafe, b.spec.Groups, b.spec.Version)
+			cfg := vDefaultConfig(leaf, pk.caPEM, b.udp)
+			cfg["static_host_map"] = m{"10.0.0.1": []string{"192.0.2.1:4242"}}
+			cfg["pki"].(m)["blocklist"] = []string{"00112233445566778899aabbccddeeff00112233445566778899aabbccddeeff"}
+			raw, _ := yaml.Marshal(cfg)
+			vtime.Advance(2500 * vtime.Millisecond)
+			return []func(){
+				func() { _ = b.c.ReloadConfigString(string(raw)) },
+				func() { b.deliverOn(1, a.udp, s1[0].Data) },
+				func() {
+					now := vtime.Now()
+					b.cm.trafficTimer.Advance(now)
+					nb, out := make([]byte, 12), make([]byte, mtu)
+					for {
+						idx, has := b.cm.trafficTimer.Purge()
+						if !has {
+							break
+						}
+						b.cm.doTrafficCheck(idx, []byte(""), nb, out, now)
+					}
+				},
+			}, net.close
+		}},
+		{"stop-vs-rx", 2, func(t testing.TB, seed int64) ([]func(), func()) {
+			net, a, b := c34Pair(t, seed, 1, 1)
+			if !net.establish(a, b, "s1") || !net.establish(b, a, "s2") {
+				t.Fatalf("establish")
+			}
+			net.flushFIFO(50)
+			p1 := c34Capture(net, func() { a.tunSend(data(a, b, "ONE")) })
+			ctl := &Control{f: b.f, l: b.l, ctx: b.f.ctx, cancel: b.cancel, state: StateStarted}
+			return []func(){
+				func() { ctl.Stop() },
+				func() { b.deliverOn(0, a.udp, p1[0].Data) },
+			}, net.close
+		}},
 	}
 }
 
